@@ -704,6 +704,11 @@ void urcu_bp_before_fork(void)
 	urcu_posix_assert(!ret);
 	ret = pthread_sigmask(SIG_BLOCK, &newmask, &oldmask);
 	urcu_posix_assert(!ret);
+	/*
+	 * Also hold init_lock: a thread registering or exiting concurrently
+	 * holds it, and the child must not inherit it locked.
+	 */
+	mutex_lock(&init_lock);
 	mutex_lock(&rcu_gp_lock);
 	mutex_lock(&rcu_registry_lock);
 	saved_fork_signal_mask = oldmask;
@@ -717,6 +722,7 @@ void urcu_bp_after_fork_parent(void)
 	oldmask = saved_fork_signal_mask;
 	mutex_unlock(&rcu_registry_lock);
 	mutex_unlock(&rcu_gp_lock);
+	mutex_unlock(&init_lock);
 	ret = pthread_sigmask(SIG_SETMASK, &oldmask, NULL);
 	urcu_posix_assert(!ret);
 }
@@ -754,6 +760,7 @@ void urcu_bp_after_fork_child(void)
 	oldmask = saved_fork_signal_mask;
 	mutex_unlock(&rcu_registry_lock);
 	mutex_unlock(&rcu_gp_lock);
+	mutex_unlock(&init_lock);
 	ret = pthread_sigmask(SIG_SETMASK, &oldmask, NULL);
 	urcu_posix_assert(!ret);
 }
